@@ -24,7 +24,7 @@ PERMUTABLE = ('notes', 'control_changes', 'pitch_bends', 'text_annotations', 'te
 TIME_KEYS = ('time', 'start_time', 'end_time', 'quantized_start_step', 'quantized_end_step', 'quantized_step')
 INSENSITIVE_CONSUMERS = {'sorted', 'set', 'frozenset', 'all', 'any', 'sum', 'max', 'min', 'len', 'collections.Counter',
                          'numpy.max', 'numpy.min', 'numpy.sum', 'np.max', 'np.min', 'np.sum', 'dict'}
-ORDER_PRESERVING = {'list', 'tuple', 'reversed', 'enumerate', 'iter', 'zip', 'itertools.chain', 'filter',
+ORDER_PRESERVING = {'list', 'tuple', 'reversed', 'enumerate', 'iter', 'zip', 'itertools.chain', 'filter', 'itertools.groupby',
                     'itertools.izip', 'itertools.islice', 'numpy.array', 'np.array'}
 ACCUMULATE = {'append', 'extend', 'add', 'update', 'appendleft', 'extendleft'}
 LOG_PREFIX = ('logging.', 'absl.logging.', 'warnings.')
